@@ -121,6 +121,13 @@ func resolveSet(base *url.URL, r string) []string {
 	return out
 }
 
+type namedReader struct {
+	*bytes.Reader
+	name string
+}
+
+func (n namedReader) Name() string { return n.name }
+
 func (Sim) Run(raw json.RawMessage, prop string, keep bool) (res simfw.Result) {
 	var s Spec
 	if err := json.Unmarshal(raw, &s); err != nil || len(s.Files) == 0 {
@@ -295,13 +302,14 @@ func (Sim) Run(raw json.RawMessage, prop string, keep bool) (res simfw.Result) {
 		case "data":
 			doc, err = loader.LoadFromData(content[0])
 		case "reader":
+			// (readers with a name, as files and standard input have: the name is not a location)
 			if s.Stdin {
-				zzsimrt.StdinReader = bytes.NewReader(content[0])
+				zzsimrt.StdinReader = namedReader{bytes.NewReader(content[0]), "/dev/stdin"}
 				doc, err = loader.LoadFromStdin()
 				zzsimrt.StdinReader = nil
 				res.Probe("root-from-stdin")
 			} else {
-				doc, err = loader.LoadFromIoReader(bytes.NewReader(content[0]))
+				doc, err = loader.LoadFromIoReader(namedReader{bytes.NewReader(content[0]), "/sim/" + s.Marker + "/upload.json"})
 			}
 		case "data_path_abs", "data_path_http":
 			doc, err = loader.LoadFromDataWithPath(content[0], urlOf[0])
